@@ -86,6 +86,7 @@ func TestConcurrentHistories(t *testing.T) {
 	r := vh.Rand(57)
 	nh := vh.EnvInt("VERIF_TRACES", 50)
 	httpMode := os.Getenv("VERIF_MODE") == "http"
+	condMix := os.Getenv("VERIF_OPMIX") == "cond"
 	realFile := os.Getenv("VERIF_AUDITFILE") != "" // audit.NewFile on a real file; records read back afterwards
 	d := NewDict(0)
 	d.sigma = map[rune]rune{}
@@ -161,7 +162,11 @@ func TestConcurrentHistories(t *testing.T) {
 				if r.Intn(4) > 0 {
 					c.Name = shared[0]
 				}
-				switch x := r.Intn(100); {
+				x := r.Intn(100)
+				if condMix { // C09: conditional gets racing activations, puts and deletions
+					x = []int{50, 50, 50, 50, 80, 80, 80, 10, 10, 88, 97, 40}[r.Intn(12)]
+				}
+				switch {
 				case x < 34:
 					c.Op, c.Val = "put", toks[r.Intn(len(toks))]
 				case x < 44:
